@@ -234,6 +234,39 @@ func tieRepo(r *rng) ([]gObj, []int64, []string) {
 	return objs, times, refs
 }
 
+// a chain of commits whose root trees are successive versions of one directory with more than a thousand
+// entries: tree objects larger than 32 KiB that follow one another in the `cat-file --batch` stream (a reader
+// that reuses a buffer for large objects races with the parser of the previous one: seeded change C17u)
+func bigTreeRepo(r *rng) ([]gObj, []int64, []string) {
+	n := 1000 + r.n(300)
+	versions := 3 + r.n(4)
+	var objs []gObj
+	objs = append(objs, gObj{kind: 'b', size: uint64(10 + r.n(90))})
+	parent := -1
+	for v := 0; v < versions; v++ {
+		var es []gEntry
+		for i := 0; i < n; i++ {
+			name := fmt.Sprintf("f%04d", i)
+			if i == v*7%n {
+				name = fmt.Sprintf("f%04d.v%d", i, v)
+			}
+			es = append(es, gEntry{0o100644, []byte(name), 0})
+		}
+		objs = append(objs, gObj{kind: 't', entries: es})
+		c := gObj{kind: 'c', tree: len(objs) - 1, pad: r.n(40)}
+		if parent >= 0 {
+			c.parents = []int{parent}
+		}
+		objs = append(objs, c)
+		parent = len(objs) - 1
+	}
+	times := make([]int64, len(objs))
+	for i := range times {
+		times[i] = 1600000000 + int64(i)
+	}
+	return objs, times, []string{fmt.Sprintf("refs/heads/main=%d", parent)}
+}
+
 func cfgEnv(cfg []string) []string {
 	env := []string{"GIT_CONFIG_COUNT=" + strconv.Itoa(len(cfg))}
 	for i, kv := range cfg {
@@ -586,6 +619,15 @@ func init() {
 				}
 				if style == "none" {
 					style = "full"
+				}
+			}
+			if r.n(12) == 0 {
+				objs, times, refs = bigTreeRepo(r)
+				objs = realSizes(objs, times)
+				args, roots = nil, nil
+				for _, rf := range refs {
+					idx, _ := strconv.Atoi(strings.SplitN(rf, "=", 2)[1])
+					roots = append(roots, idx)
 				}
 			}
 			return []string{encRepo(objs), timesJoin(times), joinOrDash(refs, ","), encArgs(args), intsJoin(roots), style, format}
